@@ -174,6 +174,59 @@ class SmallIntBox(IntBox):
 class Keeper:
     boxes: List[IntBox] = field(default_factory=list)
 """, ("Box", "IntBox", "SmallIntBox", "Keeper")),
+    # several direct bases: every direct-base pair is an inheritance edge, whatever its position in __bases__
+    ("""
+from dataclasses import dataclass, field
+from typing import List, Optional
+
+@dataclass(eq=False)
+class Veh:
+    n: int = 0
+
+@dataclass(eq=False)
+class Flo:
+    depth: float = 0.0
+
+@dataclass(eq=False)
+class Arm:
+    guns: int = 0
+    target: Optional['Veh'] = None
+
+@dataclass(eq=False)
+class Amp(Veh, Flo):
+    w: int = 0
+
+@dataclass(eq=False)
+class Gun(Arm, Flo, Veh):
+    escorts: List[Amp] = field(default_factory=list)
+""", ("Veh", "Flo", "Arm", "Amp", "Gun")),
+    # a diamond, and a class that names an ancestor again as its last direct base
+    ("""
+from __future__ import annotations
+from dataclasses import dataclass, field
+from typing import List, Optional
+
+@dataclass(eq=False)
+class Top:
+    n: int = 0
+    best: Optional[Bot] = None
+
+@dataclass(eq=False)
+class Le(Top):
+    l: int = 0
+
+@dataclass(eq=False)
+class Ri(Top):
+    r: str = ""
+
+@dataclass(eq=False)
+class Bot(Le, Ri):
+    peers: List[Ri] = field(default_factory=list)
+
+@dataclass(eq=False)
+class Low(Bot, Top):
+    z: float = 0.0
+""", ("Top", "Le", "Ri", "Bot", "Low")),
 ]
 
 
